@@ -271,3 +271,23 @@ def preload():
     import sim.eqv_sim, sim.eqv_api_sim, sim.seams, sim.kernel, sim.shrink, sim.state  # noqa: F401,E401
 
     sim.state.snapshot_base()
+
+
+def warmup(n=3):
+    """Run a few complete generated sessions in the parent so that every lazy
+    initialisation inside exo and its dependencies (first-call imports, regex
+    and parser tables, memoised types) has happened before children are forked:
+    line-event counts - and therefore crash points - are then the same in a
+    fresh child and in one that has already executed other sessions."""
+    import sim.session as S
+    import sim.state
+
+    for i in range(n):
+        cfg = {"configs": i % 2 == 0, "par": i % 2 == 1, "checks": {"pure": True, "fwd": True, "sem": True, "valid": True},
+               "fault_rate": 0.3, "compile_rate": 0.3, "compile_fault_rate": 1.0, "max_ops": 14, "min_ops": 10}
+        try:
+            S.generate_and_run(7000 + i, cfg)
+        except Exception:
+            pass
+    sim.state.reset_exo_globals()
+    sim.state.snapshot_base()
